@@ -10,7 +10,9 @@ ID = "C04"
 LEVEL = "exploration"
 RULE = ("Hypothesis draws a satisfiable SchemaSpec (depth<=3) and a plain value derived from an "
         "independently built conforming value: complete, partial projection (dict keys dropped at any "
-        "depth, also inside typed lists and any-alternatives), near-miss, perturbed, with extra keys; "
+        "depth, also inside typed lists and any-alternatives), near-miss, perturbed, with extra keys, with one list written as a tuple; one case in six is a `[..., a, b, ...]` window "
+        "whose value holds a decoy (a partial dict that fits a followed by something else) before or after the real window, or "
+        "a value in which one (partial) container object stands at two positions whose schemas differ; "
         "cases where S % v raises SubstitutionError are counted and skipped. For the result R: (a) v "
         "conforms to S implies R accepts v; (b) fake(R) (two RNG scripts) returns a value R accepts; "
         "(c) every w among fake(R) and the generated probes that R accepts carries v's data "
@@ -61,13 +63,36 @@ def _any_refuses_its_accepting_alternative(Sn, v):
         el = Sn.props.elements
         if el is not Nil and not any(x is Ellipsis for x in el) and len(el) == len(v):
             return any(_any_refuses_its_accepting_alternative(e, x) for e, x in zip(el, v))
+        if el is not Nil and len(el) > 2 and el[0] is Ellipsis and el[-1] is Ellipsis:
+            # the same thing one level up: `[..., a, b, ...] % value` - every position at which the value matches a, b
+            # refuses to take it with 'Unknown key', so the window lands on a position the value merely fits
+            inner = list(el[1:-1])
+            matching = [i for i in range(len(v) - len(inner) + 1)
+                        if all(not validate(e, v[i + j]).has_errors() for j, e in enumerate(inner))]
+            refused = 0
+            for i in matching:
+                for j, e in enumerate(inner):
+                    try:
+                        substitute(e, v[i + j])
+                    except SubstitutionError as err:
+                        if "Unknown key" in str(err):
+                            refused += 1
+                            break
+                    except Exception:  # noqa
+                        pass
+            if matching and refused == len(matching):
+                return True
+            return any(_any_refuses_its_accepting_alternative(e, v[i + j])
+                       for i in matching for j, e in enumerate(inner))
     return False
 
 
 def classify(case, v):
     """Known finding: `any(...) % value` keeps only the alternatives the value can be substituted into;
     a relaxed dict alternative refuses every undeclared key ('Unknown key'), so the one alternative that
-    actually accepts the value can be dropped and the result then rejects the value it was given."""
+    actually accepts the value can be dropped and the result then rejects the value it was given.  The window search of
+    `[..., a, b, ...] % value` has the same root: the position at which the value matches can be refused for an unknown key
+    and a position the value only fits as a partial value is taken instead."""
     if v.key == "result-rejects-substituted-value":
         try:
             S = specs.build(case["spec"], share={} if case.get("share") else None)
